@@ -759,6 +759,12 @@ pub fn judge_offline(g: &Graph, h_in: &History, disk_after: &BTreeMap<String, St
         if !exp.ambiguous && !exp.uptodate[&n.id] {
             viols.push(mk("C03", "skipped-but-stale", format!("{}", kc(&n.id)), format!("{} skipped ({}) but not up to date", n.id, rep.state_str(&n.id))));
         }
+        // "each direct upstream currently has the output that execution consumed": not if the upstream ended failed
+        if !rep.aborted {
+            if let Some(e) = g.ups(&n.id).iter().find(|e| rep.failed_q.contains(&e.up) || rep.upstream_failed.contains(&e.up)) {
+                viols.push(mk("C03", "skipped-although-upstream-failed", format!("{}", kc(&n.id)), format!("{} ends skipped (neither executed nor reported failed / upstream-failed), but its direct upstream {} ended failed / upstream-failed and has no current output", n.id, e.up)));
+            }
+        }
     }
     // ---- C07 offline (failures only): every never-started job directly below a failed /
     // upstream-failed job is reported upstream-failed, not succeeded or skipped
